@@ -175,10 +175,12 @@ struct mutex {
         return ok;
     }
     // timed forms (only reachable through timed_mutex)
-    bool try_lock_timed()
+    // nowait: the relative limit is <= 0 - exactly a try_lock: never waits, whatever the schedule's choice
+    bool try_lock_timed(bool nowait = false)
     {
         if (vs::active())
-            vs::S().visible(vs::Pending{vs::K_TRYLOCK_FOR, this, [this](int c) { return free_() || c == vs::C_TIMEOUT; }});
+            vs::S().visible(
+                vs::Pending{vs::K_TRYLOCK_FOR, this, [this, nowait](int c) { return free_() || c == vs::C_TIMEOUT || nowait; }});
         bool ok = free_();
         if (ok) owner = vs::Sched::self();
         if (vs::active()) vs::S().emit(vs::K_TRYLOCK_FOR, this, ok);
@@ -203,13 +205,30 @@ namespace detail {
     {
         if (overflows && vs::active()) vs::S().emit(vs::K_FAULT, m, 10);
     }
+    // a relative limit <= 0 makes try_lock_for a plain try_lock (it never waits).  The wrapper drivers only ever
+    // pass positive limits, so such a limit at the mutex means it was shortened on the way: K_FAULT <mutex> 12
+    template<class R, class P>
+    inline bool rel_limit_nowait(const void* m, const ::std::chrono::duration<R, P>& d)
+    {
+#ifdef VS_STRICT_POSITIVE_LIMITS
+        // opt-in (wrapper drivers): other components pass 0 legitimately (DelayedDestructor::destroyObjects(0ms)),
+        // and their models treat every timed attempt alike
+        const bool nw = !(d > ::std::chrono::duration<R, P>::zero());
+        if (nw && vs::active()) vs::S().emit(vs::K_FAULT, m, 12);
+        return nw;
+#else
+        (void)m;
+        (void)d;
+        return false;
+#endif
+    }
 }  // namespace detail
 struct timed_mutex: mutex {
     template<class R, class P>
     bool try_lock_for(const ::std::chrono::duration<R, P>& d)
     {
         detail::check_rel_timeout(this, detail::rel_timeout_overflows(d));
-        return try_lock_timed();
+        return try_lock_timed(detail::rel_limit_nowait(this, d));
     }
     template<class C, class D>
     bool try_lock_until(const ::std::chrono::time_point<C, D>&)
@@ -265,20 +284,21 @@ struct shared_mutex {
         if (vs::active()) vs::S().emit(vs::K_TRYLOCK_SH, this, ok);
         return ok;
     }
-    bool try_lock_timed()
+    bool try_lock_timed(bool nowait = false)
     {
         if (vs::active())
-            vs::S().visible(vs::Pending{vs::K_TRYLOCK_FOR, this, [this](int c) { return free_x() || c == vs::C_TIMEOUT; }});
+            vs::S().visible(
+                vs::Pending{vs::K_TRYLOCK_FOR, this, [this, nowait](int c) { return free_x() || c == vs::C_TIMEOUT || nowait; }});
         bool ok = free_x();
         if (ok) owner = vs::Sched::self();
         if (vs::active()) vs::S().emit(vs::K_TRYLOCK_FOR, this, ok);
         return ok;
     }
-    bool try_lock_shared_timed()
+    bool try_lock_shared_timed(bool nowait = false)
     {
         if (vs::active())
-            vs::S().visible(
-                vs::Pending{vs::K_TRYLOCK_SH_FOR, this, [this](int c) { return free_s() || c == vs::C_TIMEOUT; }});
+            vs::S().visible(vs::Pending{vs::K_TRYLOCK_SH_FOR, this,
+                                        [this, nowait](int c) { return free_s() || c == vs::C_TIMEOUT || nowait; }});
         bool ok = free_s();
         if (ok) sharers.push_back(vs::Sched::self());
         if (vs::active()) vs::S().emit(vs::K_TRYLOCK_SH_FOR, this, ok);
@@ -290,7 +310,7 @@ struct shared_timed_mutex: shared_mutex {
     bool try_lock_for(const ::std::chrono::duration<R, P>& d)
     {
         detail::check_rel_timeout(this, detail::rel_timeout_overflows(d));
-        return try_lock_timed();
+        return try_lock_timed(detail::rel_limit_nowait(this, d));
     }
     template<class C, class D>
     bool try_lock_until(const ::std::chrono::time_point<C, D>&)
@@ -301,7 +321,7 @@ struct shared_timed_mutex: shared_mutex {
     bool try_lock_shared_for(const ::std::chrono::duration<R, P>& d)
     {
         detail::check_rel_timeout(this, detail::rel_timeout_overflows(d));
-        return try_lock_shared_timed();
+        return try_lock_shared_timed(detail::rel_limit_nowait(this, d));
     }
     template<class C, class D>
     bool try_lock_shared_until(const ::std::chrono::time_point<C, D>&)
